@@ -114,6 +114,10 @@ func setKnobs(k Knobs) {
 		_ = failpoint.Enable("tikvclient/twoPCRequestBatchSizeLimit", "return")
 	}
 	_ = failpoint.Enable("tikvclient/injectLiveness", `return("reachable")`)
+	// The store's own poller re-reads the transaction safe point from PD every few seconds and overwrites the
+	// cache; the simulated PD's safe point never moves, so it would make the store forget what the C14 phase made
+	// it learn (a real PD's safe point is monotonic). The cache is driven by the harness alone.
+	_ = failpoint.Enable("tikvclient/noBuiltInTxnSafePointUpdater", "return")
 	ttl := uint64(20000)
 	if k.ManagedTTLMs > 0 {
 		ttl = uint64(k.ManagedTTLMs)
